@@ -65,6 +65,206 @@ def inlinable(facts, caller_name, callee_name, max_blocks):
     return True
 
 
+# ---------------------------------------------------------------------------------------------------------------
+# Jump threading of Option/Result variants across an inlined return.
+#
+# `helper(x)?` with the helper inlined leaves   … `_r = Err(e)` ─┐
+#                                                … `_r = Ok(v)` ──┴→ `_b = Try::branch(_r)`; switch discr(_b) …
+# and a path rule sees the infeasible path "helper's Err-exit → caller's Ok-arm".  For every exit of the inlined
+# callee whose return value has a known variant, the straight-line continuation up to the first switch on that
+# variant is duplicated and the switch decided (tail duplication + constant folding of a discriminant — both
+# semantics-preserving).  The models of std's combinators below state only which variant comes out for which
+# variant going in; that is their documented contract.
+
+_SAME = {"Ok": "Ok", "Err": "Err", "Some": "Some", "None": "None"}
+_COMBINATORS = {
+    ("Result", "map_err"): _SAME, ("Result", "map"): _SAME, ("Result", "as_ref"): _SAME, ("Result", "as_mut"): _SAME,
+    ("Result", "inspect_err"): _SAME, ("Result", "inspect"): _SAME, ("Result", "copied"): _SAME, ("Result", "cloned"): _SAME,
+    ("Option", "map"): _SAME, ("Option", "as_ref"): _SAME, ("Option", "as_mut"): _SAME, ("Option", "copied"): _SAME,
+    ("Option", "cloned"): _SAME, ("Option", "as_deref"): _SAME, ("Option", "inspect"): _SAME,
+    ("Option", "ok_or"): {"Some": "Ok", "None": "Err"}, ("Option", "ok_or_else"): {"Some": "Ok", "None": "Err"},
+    ("Result", "ok"): {"Ok": "Some", "Err": "None"}, ("Result", "err"): {"Ok": "None", "Err": "Some"},
+    ("Option", "and_then"): {"None": "None"}, ("Result", "and_then"): {"Err": "Err"},
+    ("Option", "filter"): {"None": "None"}, ("Result", "or_else"): {"Ok": "Ok"}, ("Option", "or_else"): {"Some": "Some"},
+    ("Try", "branch"): {"Ok": "Continue", "Some": "Continue", "Err": "Break", "None": "Break"},
+}
+_BOOL_COMBINATORS = {
+    ("Option", "is_some"): {"Some": 1, "None": 0}, ("Option", "is_none"): {"Some": 0, "None": 1},
+    ("Result", "is_ok"): {"Ok": 1, "Err": 0}, ("Result", "is_err"): {"Ok": 0, "Err": 1},
+}
+_VIDX = {"Ok": 0, "Err": 1, "None": 0, "Some": 1, "Continue": 0, "Break": 1}
+_THREAD_ADTS = ("std::result::Result", "std::option::Option", "std::ops::ControlFlow", "core::result::Result",
+                "core::option::Option", "core::ops::ControlFlow")
+
+
+def _combinator(term):
+    f = term.get("func")
+    k = f.get("k") if isinstance(f, dict) else None
+    if not k or "fn" not in k:
+        return None
+    fn = k["fn"]
+    for ty in ("Result", "Option"):
+        if fn.startswith("std::%s::%s::<" % (ty.lower(), ty)) or fn.startswith("core::%s::%s::<" % (ty.lower(), ty)):
+            return (ty, k.get("name") or fn.rsplit("::", 1)[-1])
+    if fn in ("std::ops::Try::branch", "core::ops::Try::branch"):
+        return ("Try", "branch")
+    return None
+
+
+def _plain(pl):
+    return pl["l"] if isinstance(pl, dict) and "l" in pl and not pl.get("p") else None
+
+
+def _op_local(op):
+    if isinstance(op, dict):
+        for k in ("m", "c"):
+            if k in op:
+                return _plain(op[k])
+    return None
+
+
+def _variant_of_agg(rv):
+    if isinstance(rv, dict) and rv.get("r") == "agg" and rv.get("ak") == "adt" and rv.get("adt") in _THREAD_ADTS:
+        return rv.get("variant")
+    return None
+
+
+def _written(stmt):
+    pl = stmt.get("pl")
+    return pl["l"] if isinstance(pl, dict) and "l" in pl else None
+
+
+def _thread_from(blocks, start, known, dvals0=None, limit=16):
+    """Follow the straight-line continuation from block `start` with `known` = {local: variant}.  Returns a list of
+    new blocks (clones) whose last one ends in a goto to the decided switch target, or None."""
+    clones = []
+    dvals = dict(dvals0 or {})     # local -> int (a discriminant or bool known on this path)
+    cur = start
+    seen = set()
+    known = dict(known)
+    while len(clones) < limit and cur not in seen:
+        seen.add(cur)
+        blk = blocks[cur]
+        if blk.get("cleanup"):
+            return None
+        nb = {"stmts": copy.deepcopy(blk["stmts"]), "term": copy.deepcopy(blk["term"])}
+        for st in nb["stmts"]:
+            if st.get("s") != "assign":
+                w = _written(st)
+                if w is not None:
+                    known.pop(w, None); dvals.pop(w, None)
+                continue
+            dst = _plain(st["pl"])
+            rv = st["rv"]
+            w = _written(st)
+            val = dv = None
+            if dst is not None:
+                if rv.get("r") == "use":
+                    src = _op_local(rv["op"])
+                    if src is not None:
+                        val, dv = known.get(src), dvals.get(src)
+                elif rv.get("r") == "discr":
+                    src = _plain(rv.get("pl"))
+                    if src is not None and src in known:
+                        dv = _VIDX.get(known[src])
+                else:
+                    val = _variant_of_agg(rv)
+                if rv.get("r") == "use" and isinstance(rv["op"], dict) and "k" in rv["op"] \
+                        and isinstance(rv["op"]["k"].get("v"), int) and rv["op"]["k"].get("ty") == "bool":
+                    dv = rv["op"]["k"]["v"]
+            if w is not None:
+                known.pop(w, None); dvals.pop(w, None)
+            if dst is not None:
+                if val is not None:
+                    known[dst] = val
+                if dv is not None:
+                    dvals[dst] = dv
+        t = nb["term"]
+        clones.append(nb)
+        if t["t"] == "goto":
+            cur = t["target"]
+            continue
+        if t["t"] == "drop" and t.get("target") is not None:
+            dl = t["pl"].get("l") if isinstance(t.get("pl"), dict) else None
+            known.pop(dl, None); dvals.pop(dl, None)
+            cur = t["target"]
+            continue
+        if t["t"] == "call" and t.get("target") is not None:
+            comb = _combinator(t)
+            dst = _plain(t["dest"])
+            src = _op_local(t["args"][0]) if t.get("args") else None
+            w = t["dest"].get("l") if isinstance(t["dest"], dict) else None
+            out = dv = None
+            if comb is not None and src is not None and src in known:
+                if comb in _COMBINATORS:
+                    out = _COMBINATORS[comb].get(known[src])
+                elif comb in _BOOL_COMBINATORS:
+                    dv = _BOOL_COMBINATORS[comb].get(known[src])
+            # a call may move its arguments
+            for a in t.get("args", []):
+                al = _op_local(a)
+                if al is not None and isinstance(a, dict) and "m" in a:
+                    known.pop(al, None)
+            if w is not None:
+                known.pop(w, None); dvals.pop(w, None)
+            if dst is not None and out is not None:
+                known[dst] = out
+            if dst is not None and dv is not None:
+                dvals[dst] = dv
+            if not known and not dvals:
+                return None
+            cur = t["target"]
+            continue
+        if t["t"] == "switch":
+            d = _op_local(t["discr"])
+            if d is not None and d in dvals:
+                v = dvals[d]
+                tgt = t["otherwise"]
+                for val, b in t["targets"]:
+                    if val == v:
+                        tgt = b
+                nb["term"] = {"t": "goto", "target": tgt, "sp": t.get("sp"), "threaded": True}
+                return clones
+            return None
+        return None
+    return None
+
+
+def _thread_returns(blocks, first, last, ret_local):
+    """`blocks[first:last]` are the freshly inlined callee blocks (their `return`s already rewritten to
+    `dest = _ret; goto target`).  Thread every exit at which `_ret` is given a known variant (or a constant)."""
+    n = 0
+    for bi in range(first, last):
+        blk = blocks[bi]
+        t = blk["term"]
+        if t["t"] not in ("goto", "drop") or t.get("target") is None or blk.get("cleanup"):
+            continue
+        variant = const = None
+        for st in reversed(blk["stmts"]):
+            if st.get("s") == "assign" and _plain(st["pl"]) == ret_local:
+                variant = _variant_of_agg(st["rv"])
+                rv = st["rv"]
+                if variant is None and rv.get("r") == "use" and isinstance(rv["op"], dict) and "k" in rv["op"] \
+                        and isinstance(rv["op"]["k"].get("v"), int) and rv["op"]["k"].get("ty") == "bool":
+                    const = rv["op"]["k"]["v"]
+                break
+            if _written(st) == ret_local:
+                break
+        if variant is None and const is None:
+            continue
+        clones = _thread_from(blocks, t["target"], {ret_local: variant} if variant is not None else {},
+                              {ret_local: const} if const is not None else {})
+        if clones is None:
+            continue
+        base = len(blocks)
+        for i, c in enumerate(clones[:-1]):
+            c["term"]["target"] = base + i + 1
+        blocks.extend(clones)
+        blk["term"] = dict(t, target=base)
+        n += 1
+    return n
+
+
 def inline_once(facts, body, select=None, max_blocks=120):
     """One round: inline every selected call currently in `body`. Returns (new Body, number of calls inlined)."""
     rec = copy.deepcopy(body.rec)
@@ -98,7 +298,7 @@ def inline_once(facts, body, select=None, max_blocks=120):
             if ct["t"] == "return":
                 cblk["stmts"].append({"s": "assign", "pl": copy.deepcopy(dest), "rv": {"r": "use", "op": {"m": {"l": ret_local, "p": []}}},
                                       "sp": ct.get("sp")})
-                cblk["term"] = {"t": "goto", "target": target, "sp": ct.get("sp")} if target is not None else {"t": "unreachable", "sp": ct.get("sp")}
+                cblk["term"] = {"t": "goto", "target": target, "sp": ct.get("sp"), "ret_of_inlined": True} if target is not None else {"t": "unreachable", "sp": ct.get("sp")}
         # argument passing
         pre = []
         for k, a in enumerate(t["args"]):
@@ -106,6 +306,8 @@ def inline_once(facts, body, select=None, max_blocks=120):
         blocks[bi]["stmts"] = blocks[bi]["stmts"] + pre
         blocks[bi]["term"] = {"t": "goto", "target": boff, "sp": t.get("sp"), "inlined": callee}
         blocks.extend(cblocks)
+        if target is not None:
+            _thread_returns(blocks, boff, boff + len(cblocks), ret_local)
         n += 1
     nb = Body(rec, facts)
     return nb, n
